@@ -70,12 +70,18 @@ DIRECTED = [
      "use": [60, 61], "decl": [8, 9]},
 ]
 
+# inheritance graphs in which an ancestor is reached twice before the parent that declares the field (lib/tdgen.py)
+DIRECTED += tdgen.diamond_cases()
+
 
 def gen_batch(ctx, n, probe_every=3):
     progs = []
     for i in range(n):
         size = ctx.rng.choice([2, 3, 5, 8] if ctx.quick else [3, 5, 8, 12, 16])
-        progs.append(tdgen.generate(ctx.rng, size=size, probe=(i % probe_every == 0)))
+        # includes INSIDE block bodies (outside the fragment of C05_resolution: oracle + correspondence only) are generated in the
+        # thorough tier (the quick tier keeps the distribution the seeded changes were measured on)
+        progs.append(tdgen.generate(ctx.rng, size=size, probe=(i % probe_every == 0),
+                                    feats=None if ctx.quick else {"include-in-block": True}))
     return progs
 
 
